@@ -133,7 +133,8 @@ func runPubScenario(sc J) []stepResult {
 		host, _ := step["host"].(string)
 		path, _ := step["path"].(string)
 		box := "https://" + host + path
-		min := J{"entry": entry, "kind": kind, "method": method, "header": header, "box": box}
+		min := J{"entry": entry, "kind": kind, "method": method, "header": header, "box": box,
+			"fedOther": cbConfigOf(world.spec["fedCallbacks"])["other"], "socOther": cbConfigOf(world.spec["socialCallbacks"])["other"]}
 		obs := J{}
 		func() {
 			defer func() {
